@@ -15,6 +15,7 @@ import (
 
 // C07 — re-indexing over an existing index converges (idempotent replay).
 type c07 struct {
+	faulted  bool
 	prefixes int
 }
 
@@ -99,6 +100,47 @@ func reindexConvergence(x *hctx, o *c07) string {
 			pre.Close()
 			if err != nil {
 				return fmt.Sprintf("rebuild of the first %d archives failed: %v", j, err)
+			}
+		}
+		// once per case: the same replay with one failing index-store call. A replay that
+		// reports success has converged; one that reports the failure converges when it is run again
+		if !o.faulted && j > 0 {
+			o.faulted = true
+			dbf := dbj + ".faulted"
+			if err := world.CopyFile(dbf, dbj); err == nil {
+				probe := &world.Probe{}
+				var wf *world.World
+				var cerr error
+				checkObs(x.f, hist.Call("construct", func() {
+					wf, cerr = world.New(x.cfg, world.Opts{Dir: filepath.Join(side, "faulted"), Drive: full, DB: dbf, NoInit: true, Probe: probe})
+				}), "construct")
+				if cerr != nil {
+					failf(x.f, "cannot construct: %v", cerr)
+				}
+				k := 1 + (j*7+len(raw)/512)%23
+				probe.Arm(world.SeamMeta, k, false)
+				var ferr error
+				checkObs(x.f, hist.Call("replay with a failing index store", func() { ferr = wf.Reindex(false, nil) }), "replay with a failing index-store call")
+				_, _, fired := probe.Snapshot()
+				probe.Disarm()
+				if ferr != nil {
+					live.S.Class("faulted-replay:error-reported")
+					checkObs(x.f, hist.Call("replay again", func() { ferr = wf.Reindex(false, nil) }), "replay after a failed replay")
+					if ferr != nil {
+						wf.Close()
+						return fmt.Sprintf("after a replay that failed on an index-store error (call %d), running the replay again reported: %v", k, ferr)
+					}
+				} else if fired {
+					live.S.Class("faulted-replay:success-reported")
+				}
+				wf.Close()
+				wf = worldOver(x.f, x.cfg, filepath.Join(side, "faulted"), full, dbf, true)
+				fsnap, e := observe.Snapshot(hist.Call, wf.FS, true)
+				checkObs(x.f, e, "snapshot after the faulted replay")
+				wf.Close()
+				if d := observe.Diff("from-scratch", refSnap, "replayed-with-a-failing-index-store-call", fsnap, true); d != "" {
+					return fmt.Sprintf("a replay into the index of the first %d archives during which index-store call %d failed (injected=%v) ended with a success report but does not show the from-scratch state:\n%s", j, k, fired, d)
+				}
 			}
 		}
 		// replay the whole tape into A_j without wiping
